@@ -102,6 +102,51 @@ func directedCases(rng *rand.Rand) []*tcase {
 			{"constant-conjunct", "correlated-count", "SELECT o.id AS o0, (SELECT COUNT(*) " + join + " WHERE o.v < " + lit + ") AS o1 FROM " + R + " o"},
 			{"constant-conjunct", "correlated-count-mixed", "SELECT o.id AS o0, (SELECT COUNT(*) " + join + " WHERE o.v < " + lit + " AND b.v >= " + num(0) + ") AS o1 FROM " + R + " o"},
 		}
+		// subquery-expression: a subquery in expression position (select list, function argument,
+		// index, WHERE ... IN) projecting 2-4 columns evaluates to a list of structs; its extra
+		// columns are referenced nowhere else, so a pruning rule that treats them as unused changes
+		// the value. Single-column subqueries over joins / group-bys / DISTINCT are the controls.
+		// json only (the value is a list of objects); list element order is canonicalised by the
+		// driver because a subquery without ORDER BY has no defined order.
+		corr2 := "(SELECT t.id, t.a FROM " + T + " t WHERE t.k = o.k)"
+		sx := []dq{
+			{"subquery-expression", "select-2col-correlated", "SELECT o.id AS o0, " + corr2 + " AS o1 FROM " + R + " o"},
+			{"subquery-expression", "select-2col-uncorrelated", "SELECT o.id AS o0, (SELECT t.a AS a, t.b AS b FROM " + T + " t WHERE t.x >= " + lit + ") AS o1 FROM " + R + " o"},
+			{"subquery-expression", "select-3col-uncorrelated", "SELECT o.id AS o0, (SELECT t.id AS i, t.a AS a, t.b AS b FROM " + T + " t) AS o1 FROM " + R + " o"},
+			{"subquery-expression", "select-3col-correlated", "SELECT o.id AS o0, (SELECT t.b AS b, t.id AS i, t.x AS x FROM " + T + " t WHERE t.k = o.k AND t.a = " + num(1) + ") AS o1 FROM " + R + " o"},
+			{"subquery-expression", "select-4col-expression", "SELECT o.id AS o0, (SELECT t.id AS i, t.a + " + num(1) + " AS a1, t.b AS b, t.x AS x FROM " + T + " t WHERE t.x >= " + lit + ") AS o1 FROM " + R + " o"},
+			{"subquery-expression", "select-4col-correlated", "SELECT o.v AS o0, (SELECT t.x AS x, t.b AS b, t.a AS a, t.id AS i FROM " + T + " t WHERE t.k = o.k) AS o1 FROM " + R + " o"},
+			{"subquery-expression", "index-2col", "SELECT o.id AS o0, " + corr2 + "[0] AS o1 FROM " + R + " o"},
+			{"subquery-expression", "index-3col-uncorrelated", "SELECT o.id AS o0, (SELECT t.a AS a, t.b AS b, t.id AS i FROM " + T + " t)[1] AS o1 FROM " + R + " o"},
+			{"subquery-expression", "len-2col", "SELECT o.id AS o0, len(" + corr2 + ") AS o1 FROM " + R + " o"},
+			{"subquery-expression", "two-subqueries", "SELECT o.id AS o0, " + corr2 + " AS o1, (SELECT t.b AS b, t.x AS x FROM " + T + " t WHERE t.a = " + num(2) + ") AS o2 FROM " + R + " o"},
+			{"subquery-expression", "where-in-2col", "SELECT o.id AS o0 FROM " + R + " o WHERE o.k IN (SELECT t.k, t.a FROM " + T + " t)"},
+			{"subquery-expression", "where-in-3col-correlated", "SELECT o.id AS o0 FROM " + R + " o WHERE o.k IN (SELECT t.k, t.a, t.b FROM " + T + " t WHERE t.x >= o.v)"},
+			{"subquery-expression", "where-not-in-2col", "SELECT o.id AS o0 FROM " + R + " o WHERE NOT (o.k IN (SELECT t.k, t.b FROM " + T + " t))"},
+			{"subquery-expression", "where-index-not-null", "SELECT o.id AS o0 FROM " + R + " o WHERE " + corr2 + "[0] IS NOT NULL"},
+			{"subquery-expression", "where-len", "SELECT o.id AS o0 FROM " + R + " o WHERE len(" + corr2 + ") > 1"},
+			{"subquery-expression", "over-join-2col", "SELECT o.id AS o0, (SELECT a.id AS i, b.v AS v " + join + " WHERE b.id = o.id) AS o1 FROM " + R + " o"},
+			{"subquery-expression", "over-join-3col-uncorrelated", "SELECT o.id AS o0, (SELECT b.v AS v, a.id AS i, a.b AS b " + join + " WHERE a.a = " + num(1) + ") AS o1 FROM " + R + " o"},
+			{"subquery-expression", "group-by-2col", "SELECT o.id AS o0, (SELECT t.a AS a, COUNT(*) AS n FROM " + T + " t GROUP BY t.a) AS o1 FROM " + R + " o"},
+			{"subquery-expression", "group-by-3col-correlated", "SELECT o.id AS o0, (SELECT t.a AS a, COUNT(*) AS n, MAX(t.b) AS m FROM " + T + " t WHERE t.k = o.k GROUP BY t.a) AS o1 FROM " + R + " o"},
+			{"subquery-expression", "distinct-2col", "SELECT o.id AS o0, (SELECT DISTINCT t.a AS a, t.b AS b FROM " + T + " t) AS o1 FROM " + R + " o"},
+			{"subquery-expression", "inside-from-subquery", "SELECT q.l AS o0 FROM (SELECT o.id AS i, " + corr2 + " AS l FROM " + R + " o) q"},
+			{"subquery-expression", "above-join", "SELECT a.id AS o0, (SELECT t.b AS b, t.x AS x FROM " + T + " t WHERE t.id = a.id) AS o1 " + join},
+			{"subquery-expression-control", "1col-correlated", "SELECT o.id AS o0, (SELECT t.id FROM " + T + " t WHERE t.k = o.k) AS o1 FROM " + R + " o"},
+			{"subquery-expression-control", "1col-over-join", "SELECT o.id AS o0, (SELECT b.id " + join + " WHERE a.a = " + num(1) + " AND b.v >= o.v) AS o1 FROM " + R + " o"},
+			{"subquery-expression-control", "1col-count", "SELECT o.id AS o0, (SELECT COUNT(*) FROM " + T + " t WHERE t.k = o.k) AS o1 FROM " + R + " o"},
+			{"subquery-expression-control", "1col-group-by", "SELECT o.id AS o0, (SELECT MAX(t.b) FROM " + T + " t GROUP BY t.a) AS o1 FROM " + R + " o"},
+			{"subquery-expression-control", "1col-group-by-over-join", "SELECT o.id AS o0, (SELECT COUNT(*) " + join + " WHERE b.v >= o.v GROUP BY a.a) AS o1 FROM " + R + " o"},
+			{"subquery-expression-control", "1col-distinct", "SELECT o.id AS o0, (SELECT DISTINCT t.a FROM " + T + " t WHERE t.k = o.k) AS o1 FROM " + R + " o"},
+			{"subquery-expression-control", "1col-in", "SELECT o.id AS o0 FROM " + R + " o WHERE o.k IN (SELECT t.k FROM " + T + " t WHERE t.a = " + num(1) + ")"},
+			{"subquery-expression-control", "1col-index", "SELECT o.id AS o0, (SELECT t.id FROM " + T + " t WHERE t.k = o.k)[0] AS o1 FROM " + R + " o"},
+		}
+		for _, q := range sx {
+			out = append(out, &tcase{
+				sql: q.sql, files: files, mode: "json", procs: []int{1, 2, 16}[rng.Intn(3)],
+				shape: "directed-" + q.family, feat: []string{"directed/" + q.family + "/" + q.name, "directed-format/" + format},
+			})
+		}
 		for qi, q := range qs {
 			modes := []string{"json", "csv", "stream_native", "batch_table"}
 			if strings.Contains(q.sql, "(SELECT COUNT(*)") {
